@@ -801,8 +801,7 @@ M('C01', 'mime-bundle-differ-drops-one-sided-keys', NBD, "        add_mime_diff(
 M('C02', 'dict-differ-drops-removed-keys', GEN, '    for key in sorted(akeys - bkeys):\n        if not _is_ignored(config, "/".join((path, key))):\n            di.remove(key)\n', '', 'R02.14')
 M('C01', 'nbpatch-skips-write-for-empty-diff', 'nbdime/nbpatchapp.py', "    if output_filename:\n        # Open the output only", "    if output_filename:\n        if not diff and os.path.exists(output_filename):\n            return 0\n        # Open the output only", 'R01.14')
 T('C01', 'twin-nbpatch-writes-then-returns', 'nbdime/nbpatchapp.py', "        with io.open(output_filename, \"wb\") as outfile:\n            outfile.write(data)\n", "        with io.open(output_filename, \"wb\") as outfile:\n            outfile.write(data)\n        return 0\n")
-# (since /repo compares the values it does not recurse into DEEPLY, declaring a deep container atomic only makes the diff coarser: a twin now)
-T('C02', 'twin-is-atomic-depth-cutoff', 'nbdime/diffing/config.py', "        try:\n            return self._atomic_paths[path]", "        if path is not None and path.count('/') > 64:\n            return True\n        try:\n            return self._atomic_paths[path]")
+M('C02', 'is-atomic-depth-cutoff', 'nbdime/diffing/config.py', "        try:\n            return self._atomic_paths[path]", "        if path is not None and path.count('/') > 64:\n            return True\n        try:\n            return self._atomic_paths[path]", 'R02.15')
 M('C10', 'strategy-gates-line-merge', MG, "            base_lines = base.splitlines(True)\n            _merge_strings.recursion = True\n            try:\n                decisions = _merge_lists(\n                    base_lines, local_diff, remote_diff,\n                    path, parent_decisions, strategies)\n            finally:\n                # Ensure recursion stops even in case of exceptions\n                _merge_strings.recursion = False",
   "            base_lines = base.splitlines(True)\n            if strategy in ('use-local', 'use-remote') and len(base_lines) > 50:\n                decisions.conflict(path, local_diff, remote_diff, strategy)\n            else:\n                _merge_strings.recursion = True\n                try:\n                    decisions = _merge_lists(\n                        base_lines, local_diff, remote_diff,\n                        path, parent_decisions, strategies)\n                finally:\n                    _merge_strings.recursion = False", 'R10.8')
 M('C09', 'merged-notebook-post-processed', MNB, "    merged = apply_decisions(base, decisions)\n", "    merged = apply_decisions(base, decisions)\n    merged.metadata.pop('nbdime-conflicts', None)\n", 'R09.16')
